@@ -112,6 +112,7 @@ pzgstrf_pivotL(
     /* Test for singularity */
     if ( pivmax == 0.0 ) {
 	*pivrow = lsub_ptr[pivptr];
+	SLU_MT_VEV(VE_PIVOT_REC, pnum, jcol, &perm_r[*pivrow]);
 	perm_r[*pivrow] = jcol;
 	inv_perm_r[jcol] = *pivrow;
 	*usepr = NO;
@@ -138,10 +139,12 @@ pzgstrf_pivotL(
     }
     
     /* Record pivot row */
+    SLU_MT_VEV(VE_PIVOT_REC, pnum, jcol, &perm_r[*pivrow]);
     perm_r[*pivrow] = jcol;
     inv_perm_r[jcol] = *pivrow;
     
     /* Interchange row subscripts */
+    if ( pivptr != nsupc ) SLU_MT_VEV(VE_ROW_XCHG, pnum, jcol, fsupc);
     if ( pivptr != nsupc ) {
 	itemp = lsub_ptr[pivptr];
 	lsub_ptr[pivptr] = lsub_ptr[nsupc];
